@@ -108,3 +108,37 @@ void h_PLS_structure(void)
 #endif
   VC_REACH();
 }
+
+#ifdef VC_UNIT_ALLLV
+/* PLSYPredictorAllLV on its real body; PLSScorePredictor and PLSYPredictor enter by contract (recording stubs):
+ * the output is objects x ny*nlv, block lv (columns ny*lv .. ny*lv+ny-1) is the prediction with lv+1 latent variables */
+#ifdef VC_CBMC
+extern size_t vc_sp_calls, vc_sp_nlv;
+#define GH(c) (c)
+#else
+/* natively the real predictors run: only the shape obligations are meaningful */
+static size_t vc_sp_calls, vc_sp_nlv, vc_yp_calls, vc_yp_nlv[GMAX];
+static double vc_yp_val[GMAX][GMAX][GMAX];
+#define GH(c) (1)
+#endif
+void h_PLSYPredictorAllLV(void)
+{
+  matrix *mx = in_matrix(VC_N, VC_XC, 0), *y;
+  PLSMODEL *model;
+  NewPLSModel(&model);
+  DVectorResize(model->b, VC_NLV);
+  ResizeMatrix(model->yloadings, VC_NY, VC_NLV);
+  initMatrix(&y);
+  PLSYPredictorAllLV(mx, model, NULL, y);
+  VC_CHECK("AllLV: output is objects x ny*nlv", y->row == VC_N && y->col == (size_t)VC_NY * VC_NLV);
+  VC_CHECK("AllLV: scores are predicted once with all stored latent variables", GH(vc_sp_calls == 1 && vc_sp_nlv == VC_NLV));
+  VC_CHECK("AllLV: one response prediction per latent-variable count", GH(vc_yp_calls == VC_NLV));
+  for(size_t lv = 0; lv < VC_NLV; lv++) {
+    VC_CHECK("AllLV: block lv is predicted with lv+1 latent variables", GH(vc_yp_nlv[lv] == lv + 1));
+    for(size_t i = 0; i < VC_N; i++)
+      for(size_t j = 0; j < VC_NY; j++)
+        VC_CHECK("AllLV: column ny*lv + j holds response j predicted with lv+1 latent variables", GH(VC_SAME(y->data[i][VC_NY * lv + j], vc_yp_val[lv][i][j])));
+  }
+  VC_REACH();
+}
+#endif
